@@ -1,8 +1,8 @@
 #!/bin/sh
 # seedrun.sh <dir> <pkgdir> <prop> : confirm + run the property's check (quick, then thorough if quick misses)
-d="$1"; pkg="$2"; prop="$3"
+d="$1"; pkg="$2"; prop="$3"; pat="${4:-Demo|Mut}"
 echo "== $d ($prop)"
-/verif/seedconfirm.sh "$d" "$pkg" 'Demo|Mut' | grep -E "rc=" 
+/verif/seedconfirm.sh "$d" "$pkg" "$pat" | grep -E "rc=" 
 out=$(/verif/seedtest.sh "$d/patch.diff" "$prop" quick 2>&1); rc=$?
 echo "check quick rc=$rc: $(echo "$out" | grep -E "^VIOLATION|theorems=" | head -3 | cut -c1-200 | tr '\n' ' ')"
 if [ $rc -eq 0 ]; then
